@@ -376,7 +376,7 @@ func (r *Run) havocAll(st *State, reach Term) {
 	oldTop := r.heapGet(st, "$top")
 	held := map[string]Term{}
 	for k := range r.compSorts {
-		if strings.HasPrefix(k, "held.") || strings.HasPrefix(k, "G.const.") {
+		if strings.HasPrefix(k, "held.") || strings.HasPrefix(k, "G.const.") || r.isLocalGhost(k) {
 			held[k] = r.heapGet(st, k)
 		}
 	}
@@ -852,4 +852,17 @@ func (r *Run) strLit(s string) Term {
 		}
 	}
 	return Term{fmt.Sprintf("strlit!%d", id), SStr}
+}
+
+// isLocalGhost: the component is a thread-local ghost field (F.<pkg>.<Struct>.<field> with "Struct.field" declared
+// "ghost local"): a callee's unspecified effects do not include it.
+func (r *Run) isLocalGhost(comp string) bool {
+	if !strings.HasPrefix(comp, "F.") {
+		return false
+	}
+	parts := strings.Split(comp, ".")
+	if len(parts) < 3 {
+		return false
+	}
+	return r.specs.GhostLocal[parts[len(parts)-2]+"."+parts[len(parts)-1]]
 }
